@@ -9,11 +9,14 @@ COQ_PROPS = "Props/C15.v"
 DRIVER_NAME = "c15"
 HARNESS = {"bin": "c15"}
 THEOREMS = [
-    "C15_position: valid UTF-8 s, char boundary i <= len s -> translate_position s i = (lines_before s i, chars_since_line_start s i)",
+    "C15_position: valid UTF-8 s, char boundary i <= len s -> translate_position s i = (lines_before s i, chars_since_line_start s i) (incl. end of input, with and without final newline)",
     "C15_span_ok: valid UTF-8 s, off <= len s -> char_span s off = (a,b) with a <= b <= len s, both char boundaries, a <= off",
+    "C15_translate_total: no slice bound / usize subtraction in translate_position can fail, for any input and index",
     "C15_render_total: rendering the error at char_span s off reaches no panic site",
-    "C15_offset_in_range: parse_document s = PErr e (Some at) -> at <= len s",
-    "C15_message_partial / C15_message_refuted: message non-empty outside the listed classes (document-level dispatch); witness \"\\r\"",
+    "C15_offset_in_range (+ _value, _key, _key_path): every error offset of the parser is <= len s (whole parser, general invariant over all combinators)",
+    "C15_message: parse_document s = PErr e at, no bare CR at / right before at -> e has a cause or a context (message non-empty); whole parser",
+    "C15_message_refuted, C15_message_refuted_array: witnesses CR and `a = [CR]` have an empty message (known finding C15-empty-message-bare-cr)",
+    "C15_located: all of the above composed for one rejected document",
 ]
 RULE = ("valid generated documents (multi-byte characters in keys, strings, comments) x truncation at every character boundary, "
         "single-byte insertion/substitution/deletion at every position from a small byte set, gen_toml.mutate, multi-byte characters "
@@ -361,7 +364,7 @@ def gen_cases(rng, tier):
         add(cmd, b"", "empty")
 
     # -- valid documents: truncation at every byte, edits at every position --------------------
-    n_docs = 28 if quick else 900
+    n_docs = 16 if quick else 450
     docs = valid_docs(rng, n_docs)
     rejected_probe = []
     for di, text in enumerate(docs):
@@ -371,7 +374,7 @@ def gen_cases(rng, tier):
                 rejected_probe.append(text[:i])
             if not text[:i].endswith(b"\n"):
                 add("derr", text[:i] + b"\n", "truncate-nl")
-        full = quick and di < 10 or (not quick and di < 450)
+        full = (quick and di < 6) or (not quick and di < 225)
         bs = BYTESET if full else rng.sample(BYTESET, 4)
         for i in range(len(text) + 1):
             for b in (bs if full or rng.random() < 0.35 else []):
@@ -391,7 +394,7 @@ def gen_cases(rng, tier):
 
     # -- multi-byte characters right BEFORE and AT the implementation's error position --------
     rng.shuffle(rejected_probe)
-    rejected_probe = rejected_probe[:2500 if quick else 60000]
+    rejected_probe = rejected_probe[:1500 if quick else 40000]
     obs = run_impl([Case("derr", [s]).line() for s in rejected_probe])
     for s, l in zip(rejected_probe, obs):
         if not l or not l.startswith("err ") or "span=none" in l:
